@@ -66,6 +66,11 @@ public:
    */
   bool isValid() const;
 
+#ifdef BIOPP_BPP_CORE_VERIF
+  /** verification hook: the cached validity flag, without revalidating */
+  bool verifCachedValid() const { return isValid_; }
+#endif
+
   /**
    * Is the tree rooted?
    *
